@@ -1,4 +1,5 @@
-import GdVerif.Lemmas.Gs3Whole
+import GdVerif.Lemmas.Gs3Extra
+import GdVerif.Lemmas.Gs3Legacy
 /-
   C04 (GameSpy 3) — replies are decoded completely.
 
@@ -85,3 +86,144 @@ example : (query 29900 0 (Net.init [.opened ((script C04_gs3_exampleConfig C04_g
 
 example : (expected C04_gs3_exampleState).players = [⟨[65], -5, 30, 1, 2, 7⟩, ⟨[66], 6, 31, 2, 3, 8⟩]
     ∧ (expected C04_gs3_exampleState).teams = [⟨[82], 9⟩] := ⟨rfl, rfl⟩
+
+/-! ## Field sections the client has no place for (`kills_`, `time_on_`, `clan_`, `honor_t` …)
+
+SPEC: `Spec.Extra` / `Spec.Section` / `Spec.ConfigX` — a reply may carry, anywhere among the slices of
+any packet, sections of columns that are not part of the response.  `Spec.wfExtra` is what the format
+allows for such a section and all the reader needs: marker bytes below 3, a field id that is a
+non-empty text not starting with a marker byte and whose first `_`-segment is none of the typed names,
+a row offset that is a byte, values that are non-empty texts.  Nothing is asked of what the values
+say.  `Spec.wfX` is `Spec.wf` with sections for slices (`C04_gs3_extra_conservative`). -/
+
+/-- `query` on a reply with extra sections: for every well-formed state, every layout, every list of
+allowed extra sections at any positions, and ANY arrival order of the data packets, the response is
+`Spec.expected st` — which does not mention the extra sections: they are ignored; players, teams and
+unused entries are exactly those of the state. -/
+theorem C04_gs3_query_extra (cfg : ConfigX) (st : State) (h : wfX cfg st = true) (port retries : Nat)
+    (arrival : List Bytes) (harr : arrival.Perm (dataPacketsX cfg st)) :
+    (query port retries (Net.init [.opened ((handshakeReply cfg.challenge :: arrival).map .data)] [])).1
+      = .ok (expected st) := by
+  rw [query_eq, (exchangeX_spec cfg st h port retries buildResponse arrival harr).1]
+  exact buildResponseX_spec cfg st h
+
+/-- in particular for in-order arrival: `query ∘ SPEC script with extra sections = expected` -/
+theorem C04_gs3_query_extra_in_order (cfg : ConfigX) (st : State) (h : wfX cfg st = true) (port retries : Nat) :
+    (query port retries (Net.init [.opened ((scriptX cfg st).map .data)] [])).1 = .ok (expected st) :=
+  C04_gs3_query_extra cfg st h port retries _ (List.Perm.refl _)
+
+/-- `query_vars` on a reply with extra sections: exactly the key/value pairs sent. -/
+theorem C04_gs3_query_vars_extra (cfg : ConfigX) (st : State) (h : wfX cfg st = true) (port retries : Nat)
+    (arrival : List Bytes) (harr : arrival.Perm (dataPacketsX cfg st)) :
+    (queryVars port retries (Net.init [.opened ((handshakeReply cfg.challenge :: arrival).map .data)] [])).1
+      = .ok st.vars := by
+  rw [queryVars_eq, (exchangeX_spec cfg st h port retries buildVars arrival harr).1]
+  exact buildVarsX_spec cfg st h
+
+/-- The same response as without the extra sections, stated as an equation between the two queries:
+when the reply stripped of its extra sections (`cfg.base`) is itself a well-formed reply, querying the
+server that sends them and the server that does not gives the same result. -/
+theorem C04_gs3_extra_ignored (cfg : ConfigX) (st : State) (h : wfX cfg st = true) (hb : wf cfg.base st = true)
+    (port retries : Nat) :
+    (query port retries (Net.init [.opened ((scriptX cfg st).map .data)] [])).1
+      = (query port retries (Net.init [.opened ((script cfg.base st).map .data)] [])).1 := by
+  rw [C04_gs3_query_extra_in_order cfg st h, C04_gs3_query_in_order cfg.base st hb]
+
+/-- The packet-level statement with extra sections. -/
+theorem C04_gs3_payloads_extra (cfg : ConfigX) (st : State) (h : wfX cfg st = true) :
+    buildResponse (payloadsX cfg st) = .ok (expected st) ∧ buildVars (payloadsX cfg st) = .ok st.vars
+    ∧ parsePlayersAndTeams (cfg.layout.map (encSections st)) = .ok (st.players, st.teams) :=
+  ⟨buildResponseX_spec cfg st h, buildVarsX_spec cfg st h, parsePlayersAndTeamsX_spec cfg st h⟩
+
+/-- The core, at the level of one packet: an allowed extra section in front of any allowed sections
+is skipped — the field-section loop over `extra ++ rest` gives the tables of the loop over `rest`,
+whatever the tables were before. -/
+theorem C04_gs3_extra_section_skipped (st : State) (e : Extra) (he : wfExtra e = true) (rest : List Section)
+    (hrest : ∀ s ∈ rest, SectionOk st s) (t : Tables) :
+    (readSections t).run (encExtra e ++ encSections st rest) = (readSections t).run (encSections st rest) := by
+  have h1 := readSectionsX_run st (.extra e :: rest) (fun s hs => by
+    rcases List.mem_cons.mp hs with rfl | hs
+    · exact he
+    · exact hrest s hs) t
+  have h2 := readSectionsX_run st rest hrest t
+  simp only [encSections, List.map_cons, List.flatten_cons, encSection, slicesOf] at h1 h2
+  simp only [encSections]
+  rw [h1, h2]
+
+/-- `wfX` and the scripts extend `wf` and the scripts without extra sections: a `Config` seen as a
+`ConfigX` has the same domain and the same wire image, so `C04_gs3_query` is the case "no extra
+section" of `C04_gs3_query_extra`. -/
+theorem C04_gs3_extra_conservative (cfg : Config) (st : State) :
+    wfX cfg.toX st = wf cfg st ∧ scriptX cfg.toX st = script cfg st ∧ cfg.toX.base = cfg := by
+  refine ⟨wfX_toX cfg st, ?_, base_toX cfg⟩
+  simp only [scriptX, script, dataPacketsX, dataPackets, payloadsX_toX]
+  rfl
+
+/-! non-vacuity: the example reply above with four extra sections spread over its two packets — `clan_`
+continued at row 200 with the value `score`, `kills_` with two numbers, `time_on_` (two `_`-segments)
+with a value containing `_`, `honor_t` with the values `score` and `team_rocket` — satisfies `wfX` -/
+
+def C04_gs3_xClan : Extra := ⟨[], [99, 108, 97, 110, 95], 200, [[115, 99, 111, 114, 101]]⟩
+def C04_gs3_xKills : Extra := ⟨[1], [107, 105, 108, 108, 115, 95], 0, [[51], [52]]⟩
+def C04_gs3_xTime : Extra := ⟨[], [116, 105, 109, 101, 95, 111, 110, 95], 1, [[49, 50, 95, 51, 48]]⟩
+def C04_gs3_xHonor : Extra := ⟨[2], [104, 111, 110, 111, 114, 95, 116], 0, [[115, 99, 111, 114, 101], [116, 101, 97, 109, 95, 114, 111, 99, 107, 101, 116]]⟩
+
+/-- the example layout with the extra sections `first` put after the first slice of packet 0, and
+those of `second` at the start, after the third slice and at the end of packet 1 -/
+def C04_gs3_exampleConfigWith (first second : List Extra) : ConfigX :=
+  match C04_gs3_exampleConfig.layout with
+  | [p0, p1] =>
+    ⟨-7, [(p0.take 1).map .slice ++ first.map .extra ++ (p0.drop 1).map .slice,
+          (second.take 1).map .extra ++ (p1.take 3).map .slice ++ ((second.drop 1).take 1).map .extra
+            ++ (p1.drop 3).map .slice ++ (second.drop 2).map .extra], [0, 1]⟩
+  | _ => ⟨0, [], []⟩
+
+def C04_gs3_exampleConfigX : ConfigX :=
+  C04_gs3_exampleConfigWith [C04_gs3_xKills, C04_gs3_xClan] [C04_gs3_xTime, C04_gs3_xHonor, C04_gs3_xClan]
+
+set_option maxRecDepth 20000 in
+theorem C04_gs3_exampleX_wf : wfX C04_gs3_exampleConfigX C04_gs3_exampleState = true := by decide
+
+example : (extrasOf C04_gs3_exampleConfigX.layout.flatten).length = 5 := by decide
+
+example : (query 29900 0 (Net.init [.opened ((scriptX C04_gs3_exampleConfigX C04_gs3_exampleState).map .data)] [])).1
+    = .ok (expected C04_gs3_exampleState) :=
+  C04_gs3_query_extra_in_order _ _ C04_gs3_exampleX_wf 29900 0
+
+/-! ### the condition is not padding
+
+(1) The reader BEFORE the repair (`Legacy`, see known_findings: fix a7fbffc) left an unknown field by
+`continue` right after its name; the offset byte and the values then went through the section loop as
+if they were field names.  A `clan_` column with the single value `score` — an allowed extra section —
+made it take the next section's name for a score: the query failed.  The repaired reader returns the
+expected response for the same packets. -/
+
+def C04_gs3_exampleConfigScore : ConfigX :=
+  C04_gs3_exampleConfigWith [⟨[], [99, 108, 97, 110, 95], 0, [[115, 99, 111, 114, 101]]⟩] []
+
+set_option maxRecDepth 20000 in
+theorem C04_gs3_extra_old_reader_defect :
+    wfX C04_gs3_exampleConfigScore C04_gs3_exampleState = true
+    ∧ Legacy.buildResponse (payloadsX C04_gs3_exampleConfigScore C04_gs3_exampleState) = .err .typeParse
+    ∧ buildResponse (payloadsX C04_gs3_exampleConfigScore C04_gs3_exampleState) = .ok (expected C04_gs3_exampleState) := by
+  refine ⟨by decide, by decide +kernel, ?_⟩
+  exact buildResponseX_spec _ _ (by decide)
+
+/-! (2) Each clause of `wfExtra` that speaks about content is needed by the repaired reader too: a
+section whose field id has a typed first segment with a suffix other than `t` (`score_total_`) is not
+an extra section but a malformed typed one, and an empty value in the middle closes the section so
+that what follows is read as sections — both change the result. -/
+
+def C04_gs3_exampleConfigTypedName : ConfigX :=
+  C04_gs3_exampleConfigWith [⟨[], [115, 99, 111, 114, 101, 95, 116, 111, 116, 97, 108, 95], 0, [[55]]⟩] []
+
+def C04_gs3_exampleConfigEmptyValue : ConfigX :=
+  C04_gs3_exampleConfigWith [⟨[], [99, 108, 97, 110, 95], 0, [[97], [], [112, 105, 110, 103, 95]]⟩] []
+
+set_option maxRecDepth 20000 in
+theorem C04_gs3_extra_condition_needed :
+    (wfX C04_gs3_exampleConfigTypedName C04_gs3_exampleState = false
+      ∧ buildResponse (payloadsX C04_gs3_exampleConfigTypedName C04_gs3_exampleState) = .err .packetBad)
+    ∧ (wfX C04_gs3_exampleConfigEmptyValue C04_gs3_exampleState = false
+      ∧ buildResponse (payloadsX C04_gs3_exampleConfigEmptyValue C04_gs3_exampleState) = .err .packetBad) := by
+  refine ⟨⟨by decide, by decide +kernel⟩, by decide, by decide +kernel⟩
